@@ -117,11 +117,12 @@ func capture(sc *scheme, mode string, r *prng, nmal int, extra string) bool {
 		ids := chooseIDs(r, c.n, ci)
 		var shares map[uint16][]byte
 		var kr jRun
+		var kgParties map[uint16]adapterParty
 		run++
 		if sc.name == "ecdsa" && mode == "preparams" {
 			shares, kr = keygenDirectECDSA(sc, rec, run, ids, c.t, kgTimeout)
 		} else {
-			shares, kr = keygenLive(sc, rec, run, ids, c.t, kgTimeout)
+			shares, kr, kgParties = keygenLive(sc, rec, run, ids, c.t, kgTimeout)
 		}
 		emit(kr)
 		if !kr.Ok {
@@ -145,10 +146,35 @@ func capture(sc *scheme, mode string, r *prng, nmal int, extra string) bool {
 				ok = false
 			}
 		}
+		// The same party objects serve a second session with ANOTHER committee: the signers are the members without the
+		// smallest identifier, so every remaining member sits one slot lower than during key generation.  Objects that
+		// really ran KeyGen are re-initialised (as the package's own test does, there with the same committee); where key
+		// generation was run by the library directly the objects first serve the full committee (Init + one message
+		// from every other member) and are then re-initialised.
+		if ok && len(ids) > c.t+1 {
+			run++
+			signers := sorted16(ids)[1:]
+			opts := signOpts{}
+			how := "objects primed with the key-generation committee (Init + one message from every member), then Init(signers)"
+			if kgParties != nil {
+				opts.reuse = kgParties
+				how = "the objects that ran KeyGen among the full committee are re-initialised with the signers"
+			} else {
+				full := append([]uint16{}, ids...)
+				opts.prime = func(id uint16, p adapterParty) { primeParty(sc, p, id, full, c.t, full) }
+			}
+			sr := signLive(sc, rec, run, ids, signers, c.t, shares, r.bytes(32), signTimeout, opts)
+			sr.Expect, sr.Reinit, sr.PrevIDs = "sign", how, sorted16(ids)
+			emit(sr)
+			if !sr.Ok {
+				ok = false
+			}
+		}
 	}
 	out.Flush()
 	grid(sc, rec, r)
 	locateGrid(sc, rec, r, thorough)
+	reinitGrid(sc, r, thorough)
 	malformed(sc, rec, r, nmal)
 	return ok
 }
@@ -283,6 +309,131 @@ func locateGrid(sc *scheme, rec *recorder, r *prng, thorough bool) {
 				o.AttrIdx, o.AttrType, o.AttrBcast = idx[0], types[0], bcf[0]
 			}
 			emit(o)
+		}
+	}
+}
+
+// wellFormed: a message of the first broadcast-class type of the tables with empty content (decodes, is queued)
+func wellFormed(sc *scheme) (string, []byte) {
+	_, bcs := sc.tables()
+	if len(bcs) == 0 {
+		return "", nil
+	}
+	return bcs[0], anyBytes(bcs[0], nil)
+}
+
+// primeParty: the object serves a session: Init(committee) and one message from each of the given senders, consumed.
+func primeParty(sc *scheme, p adapterParty, self uint16, committee []uint16, t int, senders []uint16) {
+	p.Init(committee, t, func([]byte, bool, uint16) {})
+	_, b := wellFormed(sc)
+	for _, x := range senders {
+		if x != self {
+			onMsg(p, b, x, true)
+		}
+	}
+	p.VerifDrainIn()
+}
+
+func senderSet(r *prng, committees ...[]uint16) []uint16 {
+	var xs []uint16
+	add := func(x uint16) {
+		if !has16(xs, x) {
+			xs = append(xs, x)
+		}
+	}
+	for _, ids := range committees {
+		for _, m := range ids {
+			add(m)
+			if m > 0 {
+				add(m - 1)
+			}
+			if m < 65535 {
+				add(m + 1)
+			}
+		}
+	}
+	for _, x := range []uint16{0, 255, 256, 65534, 65535, r.id16()} {
+		add(x)
+	}
+	return xs
+}
+
+// reinitGrid: ONE party object taken through Init(A) -> messages from several senders -> Init(B) [-> Init(C)] and then the
+// slot grid on the current committee.  A re-initialised object must behave like a fresh one: whatever it queues is filed
+// under the slot the sender has in the CURRENT committee, an ex-member gets no slot.
+func reinitGrid(sc *scheme, r *prng, thorough bool) {
+	type scen struct {
+		self uint16
+		seq  [][]uint16
+	}
+	scens := []scen{
+		{3, [][]uint16{{3, 5, 7}, {1, 3, 5, 7}}},                   // a smaller identifier joins: everybody moves up
+		{5, [][]uint16{{1, 3, 5, 7}, {1, 5, 7}}},                   // a member leaves: the larger ones move down, 3 is an ex-member
+		{2, [][]uint16{{2, 4, 6}, {2, 5, 6}}},                      // a member is replaced in place
+		{6, [][]uint16{{2, 4, 6}, {2, 6, 9}}},                      // ... replaced by a larger one: 6 moves down
+		{5, [][]uint16{{1, 2, 5}, {5, 10, 20}}},                    // disjoint apart from the receiver
+		{256, [][]uint16{{0, 255, 256, 65535}, {255, 256, 65534}}}, // boundary identifiers
+		{4, [][]uint16{{1, 2, 3, 4}, {3, 4}, {1, 2, 3, 4}}},        // shrink and grow back
+		{1, [][]uint16{{1, 2, 3}, {1, 2, 3}}},                      // the same committee again (what the package's test does)
+	}
+	nrand := 4
+	if thorough {
+		nrand = 30
+	}
+	for i := 0; i < nrand; i++ {
+		pool := r.distinctIDs(7, i%2 == 0)
+		self := pool[0]
+		var seq [][]uint16
+		for k := 0; k < 2+r.intn(2); k++ {
+			c := []uint16{self}
+			for _, x := range pool[1:] {
+				if r.chance(1, 2) {
+					c = append(c, x)
+				}
+			}
+			if len(c) < 2 {
+				c = append(c, pool[1+r.intn(6)])
+			}
+			seq = append(seq, sorted16(c))
+		}
+		scens = append(scens, scen{self, seq})
+	}
+	url, b := wellFormed(sc)
+	if b == nil {
+		return
+	}
+	for _, sn := range scens {
+		p := sc.newParty(sn.self)
+		var prev [][]uint16
+		var primed []uint16
+		for k, com := range sn.seq {
+			if k < len(sn.seq)-1 {
+				// an earlier session: members and a few outsiders send
+				snd := senderSet(r, com)
+				primeParty(sc, p, sn.self, com, 1, snd)
+				prev = append(prev, sorted16(com))
+				for _, x := range snd {
+					if !has16(primed, x) && x != sn.self {
+						primed = append(primed, x)
+					}
+				}
+				continue
+			}
+			p.Init(com, 1, func([]byte, bool, uint16) {})
+			all := append([][]uint16{com}, sn.seq[:k]...)
+			for _, x := range senderSet(r, all...) {
+				o := jOn{Kind: "onmsg", Scheme: sc.name, Phase: "reinit", URL: url, IDs: sorted16(com), Self: sn.self, Prev: prev,
+					Primed: sorted16(primed), RealFrom: x, From: x, Member: has16(com, x), BcastIn: true, Parsed: parses(b, x, true)}
+				o.Panic = onMsg(p, b, x, true)
+				keys, idx, types, bcf := p.VerifDrainIn()
+				o.Enq = len(keys)
+				o.AttrIdx = -1
+				if len(keys) > 0 {
+					o.AttrKey = new(big.Int).SetBytes(keys[0]).String()
+					o.AttrIdx, o.AttrType, o.AttrBcast = idx[0], types[0], bcf[0]
+				}
+				emit(o)
+			}
 		}
 	}
 }
